@@ -20,7 +20,14 @@ from functools import wraps
 from itertools import count
 from math import inf
 from opcode import opname
-from types import BuiltinFunctionType, BuiltinMethodType, CodeType, MethodType, TracebackType
+from types import (
+    BuiltinFunctionType,
+    BuiltinMethodType,
+    CodeType,
+    FunctionType,
+    MethodType,
+    TracebackType,
+)
 from typing import TYPE_CHECKING, Concatenate, ParamSpec
 
 from bytecode.instr import CellVar, FreeVar
@@ -1693,9 +1700,14 @@ class ExecutionTracer(AbstractExecutionTracer):  # noqa: PLR0904
             arg_type = type(None)
         else:
             src_address = self.attribute_lookup(obj, attr_name)
-            attr_value = getattr(obj, attr_name)
-            arg_address = id(attr_value)
-            arg_type = type(attr_value)
+            if self._attribute_access_runs_code(obj, attr_name):
+                # The probe must not run code of the subject in addition to the access itself
+                arg_address = -1
+                arg_type = type(None)
+            else:
+                attr_value = getattr(obj, attr_name)
+                arg_address = id(attr_value)
+                arg_type = type(attr_value)
 
         # Different built-in methods and functions often have the same address when
         # accessed sequentially.
@@ -1803,6 +1815,46 @@ class ExecutionTracer(AbstractExecutionTracer):  # noqa: PLR0904
         )
 
     @staticmethod
+    def _attribute_access_runs_code(obj: object, attribute: str) -> bool:
+        """Checks whether reading an attribute executes Python code of the subject.
+
+        This is the case for properties and other descriptors implemented in Python, for
+        attributes provided by ``__getattr__`` and for an overridden ``__getattribute__``.
+
+        Args:
+            obj: The object whose attribute is read
+            attribute: The name of the attribute
+
+        Returns:
+            Whether reading the attribute executes Python code
+        """
+        if isinstance(inspect.getattr_static(type(obj), "__getattribute__", None), FunctionType):
+            return True
+        try:
+            static = inspect.getattr_static(obj, attribute)
+        except AttributeError:
+            return True
+        return isinstance(static, property) or isinstance(
+            inspect.getattr_static(type(static), "__get__", None), FunctionType
+        )
+
+    @staticmethod
+    def _plain_attribute(obj: object, attribute: str) -> object:
+        """Reads ``__dict__`` or ``__slots__`` without ``__getattr__``/``__getattribute__``.
+
+        Args:
+            obj: The object
+            attribute: The name of the attribute
+
+        Returns:
+            The attribute value, or None if there is none
+        """
+        try:
+            return object.__getattribute__(obj, attribute)
+        except (AttributeError, TypeError):
+            return None
+
+    @staticmethod
     def attribute_lookup(object_type, attribute: str) -> int:
         """Check the dictionary of classes making up the MRO (method resolution order).
 
@@ -1828,17 +1880,10 @@ class ExecutionTracer(AbstractExecutionTracer):  # noqa: PLR0904
         if attribute in {"__getattr__", "__getitem__"}:
             return -1
         # Check if the dictionary of the object on which lookup is performed
-        if (
-            hasattr(object_type, "__dict__")
-            and object_type.__dict__
-            and attribute in object_type.__dict__
-        ):
+        plain = ExecutionTracer._plain_attribute
+        if (own_dict := plain(object_type, "__dict__")) and attribute in own_dict:
             return id(object_type)
-        if (
-            hasattr(object_type, "__slots__")
-            and object_type.__slots__
-            and attribute in object_type.__slots__
-        ):
+        if (own_slots := plain(object_type, "__slots__")) and attribute in own_slots:
             return id(object_type)
 
         # Check if attribute in MRO hierarchy (no need for data descriptor)
